@@ -26,6 +26,16 @@ use tokio_util::sync::CancellationToken;
 TR = "Tracked(tr): Tracked<&mut Trace>"
 
 
+def unit_ret(sf, path):
+    """E7 (return value naming) for an `async fn` whose return type is implicit: this Verus build drops the
+    postconditions of such a function at the awaiting call site unless the unit result is named.
+    `fn f(..)` and `fn f(..) -> ()` are the same function."""
+    it = sf.item(path, "fn")
+    if it["output"] is not None:
+        return []
+    return [(it["sig"][1], it["sig"][1], " -> (r: ())")]
+
+
 def build_event_reader(u, er):
     u.take(er, "EventReader::MAX_MESSAGE_SIZE", "impl_const")
     u.take_fn(er, "EventReader::clean_files", ret="", ghost=TR, contract="""
@@ -34,7 +44,7 @@ def build_event_reader(u, er):
 """, e9=[("remove_file(&file)", None, "file: &PathBuf, " + TR, "&file, Tracked(tr)", "std::io::Result<()>",
           "    ensures final(tr).removed == old(tr).removed.push(*file), final(tr).same_uploads(*old(tr)),",
           dict(body="remove_file(file)", name="vx_e9_remove_file"))], pre_body="broadcast use group_fmt_telemetry;")
-    u.take_fn(er, "EventReader::send_data_to_wire_server", ret="", ghost=TR,
+    u.take_fn(er, "EventReader::send_data_to_wire_server", ret="", ghost=TR, sig_edits=unit_ret(er, "EventReader::send_data_to_wire_server"),
               ghost_calls=[("send_telemetry_data", None, "Tracked(tr)")], contract="""
         requires old(tr).wf(),
                  telemetry_data@.len() > 0 ==> xml_len(telemetry_data@) < LIMIT(),  // @C18.send_data_to_wire_server.pre.batch_smaller_than_64KiB
@@ -68,7 +78,7 @@ def build_event_reader(u, er):
                 forall|t: TelemetryEvent| cnt(flat(tr.batches), t) + %s cnt(tevs(events@, vm), t) <= cnt(flat(old(tr).batches), t) + #[trigger] cnt(input, t),
                 forall|t: TelemetryEvent| cnt(flat(tr.batches), t) + %s cnt(tevs(events@, vm), t) < cnt(flat(old(tr).batches), t) + #[trigger] cnt(input, t) ==> oversize_alone(t),
 """
-    u.take_fn(er, "EventReader::send_events", ret="", ghost=TR,
+    u.take_fn(er, "EventReader::send_events", ret="", ghost=TR, sig_edits=unit_ret(er, "EventReader::send_events"),
               ghost_calls=[("Self::send_data_to_wire_server", None, "Tracked(tr)")], contract="""
         requires old(tr).wf(),
         ensures final(tr).wf(),
@@ -106,7 +116,13 @@ proof { assert(old(tr).batches.subrange(0, old(tr).batches.len() as int) =~= old
         requires old(tr).wf(),
         ensures final(tr).wf(),
                 final(tr).removed == old(tr).removed + files@,  // @C18.process_events_and_clean.every_input_file_is_cleaned
-""", pre_body="broadcast use group_fmt_telemetry;")
+""", pre_body="broadcast use group_fmt_telemetry, lemma_concat_push;", loop_iter_names={0: "it"}, loop_attrs={0: "#[verifier::loop_isolation(false)]"}, loops={0: """
+            invariant
+                it.seq() == files@,
+                tr.wf(),
+                tr.removed == old(tr).removed + files@.subrange(0, it.index@ as int),
+"""}, hints=[("Self::clean_files(file);", None, "after", "proof { assert(files@.subrange(0, it.index@ + 1) =~= files@.subrange(0, it.index@ as int).push(files@[it.index@ as int])); }"),
+             ("for file in files", None, "after", "proof { assert(files@.subrange(0, files@.len() as int) =~= files@); }")])
 
 
 def build(u):
